@@ -68,6 +68,8 @@ CHECKS = {
         "runs": [rdp("VerifRdChunk", c, n, {"chunk": ch, "bufio": b}, ["C04:"], ["ran"])
                  for (c, n, ch, b) in [(0, 3, 0, 0), (0, 3, 1, 1), (0, 3, 2, 0), (1, 2, 3, 1), (2, 2, 0, 0), (11, 2, 1, 0), (12, 2, 0, 1), (52, 2, 1, 0), (82, 1, 2, 0), (82, 1, 3, 1), (4, 6, 3, 0)]] +
                 [rdp("VerifRdChunk", 82, 1, {"chunk": 1, "bufio": b}, ["C04:"], ["ran"], extra={"SPLITBACK": 100}) for b in (0, 2)] +
+                [rdp("VerifRdChunk", 6, 2, {"chunk": 0, "bufio": 0}, ["C04:"], ["ran"], extra={"K": k}) for k in (0, 1)] +
+                [rdp("VerifRdChunk", 6, 2, {"chunk": 1, "bufio": b}, ["C04:"], ["ran"], tiers=["thorough"], extra={"K": k}) for (k, b) in [(0, 0), (1, 1), (2, 2)]] +
                 [rdp("VerifRdChunk", 3, 2, {"chunk": 1, "bufio": b}, ["C04:"], ["ran"], tiers=["thorough"], extra={"K": k}) for (k, b) in [(1, 0), (2, 3)]],
         "assumptions": ["relational harness: the same symbolic stream decoded once from one piece and once through a chunking source behind bufio.NewReaderSize(16|17|64|4096), destination sizes 64 vs B2"],
     },
